@@ -66,6 +66,10 @@ fn main() {
             oracle::check_spec(&mut rep, &repo, &info, &mut batch, &sp);
             // the same spec also goes through the tokenizer correspondence
             tok::do_tok(&mut rep, sp.text.as_bytes(), yes);
+            // and (a third of them) through the resolution model fed with the repository's facts
+            if r.chance(1, 3) {
+                oracle::do_res(&mut rep, &repo, &info, &sp.text);
+            }
         }
         drop(batch);
         drop(repo);
